@@ -29,7 +29,8 @@ FINDING_IDS = ["C18-empty-value-matcher-dropped", "C18-absent-label-matcher-igno
                "C18-range-function-step-greater-than-range", "C18-resets-empty-window-zero",
                "C18-absent-over-time-offset-range-query", "C18-absent-negative-matcher-on-absent-label",
                "C18-range-binop-pairs-next-series-after-end", "C18-instant-range-function-drops-series-ending-stale",
-               "C18-holt-winters-infinite-sample-nan", "C18-absent-label-kept-despite-second-matcher"]
+               "C18-holt-winters-infinite-sample-nan", "C18-absent-label-kept-despite-second-matcher",
+               "C18-min-max-aggregation-sentinel-start-value"]
 
 
 _PORT_LOCK = None   # keeps the flock on the chosen port block for the life of this process
@@ -198,6 +199,7 @@ def main(ck):
     ok = ck.coq_build(["C18/Props.vo", "C18/Refuted.vo", "C18/Corr.vo"])
     if ok:
         ck.coq_props(["C18/Props.v", "C18/Refuted.v"])
+    canary_idx = -1
     binp = ck.go_build("./cmd/c18", "c18")
     srv = ck.go_build_repo("./app/ts-server", "ts-server")
     if not binp or not srv:
@@ -321,6 +323,15 @@ def main(ck):
             xfiles.append((len(files), kind, i))
             files.append(("%s%d" % (kind, i // shard), HEADER + "Definition cases : list %s := [\n%s\n].\n"
                           "Definition M := Eval vm_compute in %s cases.\nPrint M.\n" % (typ, ";\n".join(x[2] for x in extra[kind][i:i + shard]), fn)))
+    # permanent canary: 20 corrupted copies of a tiny case (sum_over_time of the single sample 4 with engines "answering"
+    # 5, 6, ...) and one correct copy; the evaluation must report exactly the 20 corrupted indices with bit 1 set
+    ncanary = 20
+    can = ["(FSum, 0, (100)%%Z, (100)%%Z, (0)%%Z, [((50)%%Z, (4 # 1))], [1]%%nat, (Some (XFin (%d # 1))), (Some (XFin (%d # 1))))" % (5 + k, 5 + k)
+           for k in range(ncanary)]
+    can.append("(FSum, 0, (100)%Z, (100)%Z, (0)%Z, [((50)%Z, (4 # 1))], [1]%nat, (Some (XFin (4 # 1))), (Some (XFin (4 # 1))))")
+    canary_idx = len(files)
+    files.append(("canary", HEADER + "Definition cases : list rcase := [\n%s\n].\n"
+                  "Definition M := Eval vm_compute in rmismatches cases.\nPrint M.\n" % ";\n".join(can)))
     ck.log("model evaluation: %d shards" % len(files))
     res = ck.coq_eval_many(files, timeout=240) if ok else []
     ck.log("model evaluation done")
@@ -332,7 +343,20 @@ def main(ck):
         if rc2 != 0 or not mm:
             ck.broken.append("model evaluation failed on shard %s: %s" % (files[idx][0], o[-400:]))
             continue
-        for a, b in re.findall(r"\((\d+),\s*(\d+)(?:%N)?\)", mm.group(1)):
+        # Coq prints e.g. `[(14%nat, 4%N); (\n 17%nat, 4%N)]` (scope suffixes, lines wrapped anywhere): strip white space and
+        # suffixes, then every "(" must be the start of one readable pair - fail closed otherwise
+        flat = re.sub(r"%\w+", "", re.sub(r"\s+", "", mm.group(1)))
+        tups = re.findall(r"\((\d+),(\d+)\)", flat)
+        if len(tups) != flat.count("("):
+            ck.broken.append("model evaluation: unreadable result on shard %s: %s" % (files[idx][0], mm.group(1)[:300]))
+            continue
+        if idx == canary_idx:
+            got = {int(a): int(b) for a, b in tups}
+            if sorted(got) != list(range(ncanary)) or not all(v & 1 and v & 2 and v & 4 for v in got.values()):
+                ck.broken.append("C18 canary: a corrupted case was not reported by the model evaluation (got %s)" % sorted(got.items())[:25])
+            ck.cov["canary_cases_reported"] = len(got)
+            continue
+        for a, b in tups:
             if idx < nr:
                 rmis[idx * shard + int(a)] = int(b)
             elif idx < nr + na:
